@@ -253,6 +253,9 @@ def project_wiring(ctx):
                                  clause="project(.., S) == solve(*condense(*sub._projection(interp), I=get_dofs(S))) with sub a copy; self.dx unchanged",
                                  backend="symbolic-execution", replay=dict(kind="galerkin"))
                         k, q = c.skolem("k", 0, n.t), c.skolem("q", 0, nq.t)
+                        ctx.prove(pre + "/frame", fn, tm.eq(stub.dx.get((k.t, q.t)), tm.app("dx", tm.REAL, k.t, q.t)), hyps=c.all_hyps(),
+                                  clause="the projecting basis' own quadrature weights are unchanged after the call: self.dx[k,q] == old(self.dx)[k,q]  (the masked weights live in the copy only)",
+                                  replay=dict(kind="galerkin"))
                         cellk = own.get((k.t,)) if (cls is FB.FacetBasis) else k.t
                         got = sub.dx.get((k.t, q.t))
                         want = tm.ite(member(cellk), dx.get((k.t, q.t)), tm.const(Fraction(0), tm.REAL))
